@@ -204,6 +204,8 @@ impl<T: Ord> CmRDT for GList<T> {
     open spec fn cm_pre(&self, op: &Op<T>) -> bool { true }
     open spec fn cm_post(old_: &Self, op: &Op<T>, new_: &Self) -> bool { new_.ls() == old_.ls().insert(op->Insert_id) }
     open spec fn cm_vpre(&self, op: &Op<T>) -> bool { true }
+    open spec fn cm_vhyp() -> bool { true }
+    open spec fn cm_vflag(&self, op: &Self::Op) -> bool { false }
 
 //@extract fn src/glist.rs "CmRDT for GList" validate_op
     fn validate_op(&self, /*@ _op @*/ /*@<*/ _ /*@>*/ : &Self::Op) -> /*@ (r: @*/ Result<(), Self::Validation> /*@ ) @*/
@@ -231,6 +233,8 @@ impl<T: Ord> CvRDT for GList<T> {
     open spec fn cv_inv(&self) -> bool { actor_ok::<Identifier<T>>() }
     open spec fn cv_pre(&self, other: &Self) -> bool { true }
     open spec fn cv_post(old_: &Self, other: &Self, new_: &Self) -> bool { new_.ls() == old_.ls().union(other.ls()) }
+    open spec fn cv_vhyp() -> bool { true }
+    open spec fn cv_flag(&self, other: &Self) -> bool { false }
 
 //@extract fn src/glist.rs "CvRDT for GList" validate_merge
     fn validate_merge(&self, /*@ _other @*/ /*@<*/ _ /*@>*/ : &Self) -> /*@ (r: @*/ Result<(), Self::Validation> /*@ ) @*/
